@@ -168,6 +168,30 @@ def one_case(ctx, seed, idx):
             return
         replace = r.random() < 0.5
         ctx.count('replace_mode' if replace else 'reuse_mode')
+        # an earlier attempt to define one of these interfaces locally that was REFUSED (an optional plug-in that failed
+        # to load: a stray argument, a malformed signature) - the caller caught the exception and carried on.  No
+        # definition came out of it, so nothing is "already known locally"
+        r2 = random.Random('%s/c15/refused/%s' % (seed, idx))
+        if r2.random() < 0.35:
+            rname = r2.choice(pairs)[1]['name']
+            known_before = I.DBusInterface.knownInterfaces.get(rname)
+            for _ in range(r2.choice([1, 1, 2])):
+                try:
+                    if r2.random() < 0.6:
+                        I.DBusInterface(rname, I.Method('OnlyInRefused', 'i', 's'), I.Signal('AlsoRefused', 'u'), object())
+                    else:
+                        I.DBusInterface(rname, I.Method('OnlyInRefused', 'i', 's'), I.Method('Malformed', 'a{', '('),
+                                        I.Signal('Malformed2', '(ii'))
+                    ctx.count('refused_definitions_accepted_after_all')
+                except Exception:
+                    ctx.count('refused_local_definitions')
+                    if I.DBusInterface.knownInterfaces.get(rname) is not known_before:
+                        ctx.report('refused-definition-registered',
+                                   'a definition of %s that was refused with an exception is listed as known locally '
+                                   'afterwards: %r' % (rname, describe(I.DBusInterface.knownInterfaces[rname])
+                                                       if rname in I.DBusInterface.knownInterfaces else None),
+                                   dict(w, refused=rname), case)
+                        return
         # optionally a *different* locally known definition of the first interface
         decoy = None
         decoy_before = None
